@@ -373,12 +373,12 @@ def run(ctx):
     ctx.extra["real_pe_files"] = npe
     jobs = [
         ("c19", ["--mode", "pe", "--list", pl, "--root", core.ROOT], "pe.ndjson"),
-        ("c19", ["--mode", "random", "--n", 60 if q else 3000], "random.ndjson"),
+        ("c19", ["--mode", "random", "--n", 200 if q else 3000], "random.ndjson"),
         ("c19", ["--mode", "enum", "--maxsz", 1 if q else 3], "enum.ndjson"),
         ("c19", ["--mode", "files", "--list", lp], "files.ndjson"),
         ("c19", ["--mode", "link", "--n", 6 if q else 300, "--dir", os.path.join(ctx.work, "link")], "link.ndjson"),
-        ("c19", ["--mode", "code", "--n", 14 if q else 700], "code.ndjson"),
-        ("c19", ["--mode", "json", "--n", 24 if q else 1500, "--dir", os.path.join(ctx.work, "json")], "json.ndjson"),
+        ("c19", ["--mode", "code", "--n", 40 if q else 700], "code.ndjson"),
+        ("c19", ["--mode", "json", "--n", 80 if q else 1500, "--dir", os.path.join(ctx.work, "json")], "json.ndjson"),
     ]
     paths = ctx.record_many(jobs, parallel=4)
     validate(ctx, paths, 4 if q else 32)
